@@ -212,11 +212,22 @@ def engCaseRun (c : EngCase) : String :=
       if stopped then (snap, ghost, outs ++ ["stopped"], true) else
       let e := restore env cfg snap { ghost with calls := [], lookups := [], moves := [] }
       let (r, e') := request env cfg e input
-      match finish e' with
-      | .ok s' =>
-        let snap' := match s' with | some s => some s | none => snap
-        (snap', e'.vm.ghost, outs ++ [reqOutStr r ++ " fin=ok " ++ stateOut e' 0 0 0], r.x = "panic" || r.f = "panic")
-      | _ => (snap, e'.vm.ghost, outs ++ [reqOutStr r ++ " fin=panic " ++ stateOut e' 0 0 0], true)) (none, {}, [], false)
+      -- `ensurePersist` stores a brand-new session as soon as the engine is prepared, i.e. for every
+      -- request that gets past the format check
+      let formatRefused := r.x = "err" && r.c
+      let snap0 := match snap with
+        | some s => some s
+        | none => if formatRefused then none else some (snapshot (newEngine env cfg))
+      let (snap', fin) := match finish e' with
+        | .ok (some s) => (some s, "ok")
+        | .ok none => (snap0, "ok")
+        | _ => (snap0, "panic")
+      -- what is observable after the request is what the store now holds
+      let shown := match snap' with
+        | some s => stateOut { e' with vm := { e'.vm with st := s.st, ca := s.ca } } 0 0 0
+        | none => s!"nostate cl={callsOut e'.vm.ghost 0} lk={lookupsOut e'.vm.ghost 0}"
+      (snap', e'.vm.ghost, outs ++ [reqOutStr r ++ s!" fin={fin} " ++ shown],
+        r.x = "panic" || r.f = "panic" || fin = "panic")) (none, {}, [], false)
     " # ".intercalate outs
 
 def engineStep (_ : Unit) (line : String) : Unit × List String :=
